@@ -231,6 +231,8 @@ pub struct GModule {
   pub via_header: bool,
   pub items: Vec<Item>,
   pub x_ts_types: Option<String>,
+  /// `//# sourceMappingURL=<text>` at the end of the module
+  pub source_map: Option<String>,
   /// source text does not parse
   pub broken: bool,
   pub serve: Serve,
@@ -325,6 +327,9 @@ pub fn render_module(m: &GModule) -> String {
   if m.broken {
     s.push_str("this is not ( valid javascript;;; }}}\n");
   }
+  if let Some(sm) = &m.source_map {
+    s.push_str(&format!("//# sourceMappingURL={}\n", sm));
+  }
   s
 }
 
@@ -384,7 +389,7 @@ impl GWorld {
       "resolver": self.resolver.as_ref().map(|r| json!({"map": r.map, "types_map": r.types_map, "fail": r.fail})),
       "modules": self.modules.iter().map(|m| json!({
         "url": m.url, "media": format!("{:?}", m.media), "via_header": m.via_header,
-        "serve": format!("{:?}", m.serve), "broken": m.broken, "x_ts_types": m.x_ts_types,
+        "serve": format!("{:?}", m.serve), "broken": m.broken, "x_ts_types": m.x_ts_types, "source_map": m.source_map,
         "items": m.items.iter().map(|i| json!([format!("{:?}", i.form), i.text, i.deno_types])).collect::<Vec<_>>(),
         "source": if matches!(m.serve, Serve::Module | Serve::ModuleOtherFinal(_)) { render_module(m) } else { String::new() },
       })).collect::<Vec<_>>(),
@@ -607,6 +612,8 @@ pub struct MGraph {
   pub redirects: BTreeMap<String, String>,
   /// the model declines (construct outside the core tier was reached)
   pub declined: Option<String>,
+  /// module -> (text, resolution) of its `sourceMappingURL`
+  pub source_maps: BTreeMap<String, (String, MRes)>,
 }
 
 #[derive(Clone, Debug)]
@@ -842,6 +849,30 @@ pub fn model_build(w: &GWorld, o: &MOptions) -> MGraph {
             } else {
               decl.types_dep = None;
             }
+            // the source map named by a `sourceMappingURL` comment is loaded
+            // as an external asset whenever the module's dependencies are
+            if media != Media::Wasm
+              && let Some(text) = &m.source_map
+            {
+              let res = model_resolve(r, text, &final_spec, false);
+              if follow_deps
+                && let MRes::Ok(u) = &res
+                && !g.slots.contains_key(u)
+                && !in_flight.contains(u)
+              {
+                let slot = match w.get(u).map(|x| x.serve.clone()) {
+                  Some(Serve::Module) | Some(Serve::External) | Some(Serve::ModuleOtherFinal(_)) => MSlot::External,
+                  Some(Serve::Err) => MSlot::Err("load"),
+                  Some(Serve::Redirect(_)) => {
+                    g.declined = Some(format!("redirecting source map {}", u));
+                    MSlot::External
+                  }
+                  Some(Serve::Missing) | None => MSlot::Err("missing"),
+                };
+                g.slots.insert(u.clone(), slot);
+              }
+              g.source_maps.insert(final_spec.clone(), (text.clone(), res));
+            }
             if media == Media::Wasm {
               MSlot::Wasm { deps: decl.deps }
             } else {
@@ -1014,6 +1045,7 @@ fn gen_world_once(rng: &mut Rng, cfg: &GenCfg) -> GWorld {
   let base = if remote { "https://h.test/" } else { "file:///" };
   let n = rng.range(2, cfg.max_modules.max(2));
   let mut modules: Vec<GModule> = vec![];
+  let mut source_map_files: Vec<String> = vec![];
   for i in 0..n {
     let media = match rng.below(17) {
       16 => Media::Wasm,
@@ -1042,6 +1074,7 @@ fn gen_world_once(rng: &mut Rng, cfg: &GenCfg) -> GWorld {
       via_header,
       items: vec![],
       x_ts_types: None,
+      source_map: None,
       broken: false,
       serve: Serve::Module,
     });
@@ -1060,6 +1093,7 @@ fn gen_world_once(rng: &mut Rng, cfg: &GenCfg) -> GWorld {
           via_header: false,
           items: vec![],
           x_ts_types: None,
+          source_map: None,
           broken: false,
           serve,
         });
@@ -1090,6 +1124,7 @@ fn gen_world_once(rng: &mut Rng, cfg: &GenCfg) -> GWorld {
           via_header: false,
           items: vec![],
           x_ts_types: None,
+          source_map: None,
           broken: false,
           serve: Serve::Redirect(to),
         });
@@ -1104,6 +1139,7 @@ fn gen_world_once(rng: &mut Rng, cfg: &GenCfg) -> GWorld {
         via_header: false,
         items: vec![],
         x_ts_types: None,
+        source_map: None,
         broken: false,
         serve: Serve::ModuleOtherFinal(format!("{}final{}.ts", base, i)),
       });
@@ -1257,6 +1293,26 @@ fn gen_world_once(rng: &mut Rng, cfg: &GenCfg) -> GWorld {
       }
     }
     modules[i].items = items;
+    // a source map comment pointing at a dedicated file that nothing imports
+    if media != Media::Wasm && cfg.allow_failures && rng.chance(1, 7) {
+      let map_url = format!("{}maps/m{}.js.map", base, i);
+      modules[i].source_map = Some(if rng.coin() { format!("./maps/m{}.js.map", i) } else { map_url.clone() });
+      if rng.chance(3, 4) {
+        source_map_files.push(map_url);
+      }
+    }
+  }
+  for u in source_map_files {
+    modules.push(GModule {
+      url: u,
+      media: Media::Unknown,
+      via_header: false,
+      items: vec![],
+      x_ts_types: None,
+      source_map: None,
+      broken: false,
+      serve: Serve::Module,
+    });
   }
   // the `type` attribute proviso across modules: a non-JSON target must never
   // be imported with the json attribute and vice versa -- guaranteed above
